@@ -6,7 +6,7 @@ META = {
     "bounds": {"quick": "skeleton  k0 ; loop n1 { k1 ; loop n2 { k2 } ; k3 } ; k4  with every slot one of 9 fragments (nothing, prepare_all, measure_all, gate, "
                         "subcircuit block, block leaving a section open, single-branch parallel block closing a section, macro with a whole section, macro with a gate); "
                         "16 shards of (k0,k4,k3); k1 in 4 fragments, k2 in all 9, outer loop count 0..2 symbolic, inner count 2",
-               "thorough": "all 729 shards of (k0,k4,k3), k1, k2 and both loop counts 0..3 symbolic"},
+               "thorough": "324 shards (all k0, k4; k3 in 4 fragments); k1 in 5 fragments, k2 in all 9, outer loop count 0..2 symbolic, inner count 2"},
     "assumptions": ["reference automaton transcribed from the statement (vf/harness/walk.py: automaton)"],
     "outside": ["more than two nested loops", "branch/case statements"],
 }
@@ -19,12 +19,12 @@ def jobs(tier):
     if q:
         shards = [(k0, k4, k3) for (k0, k4) in ((0, 0), (1, 2), (1, 0), (5, 2)) for k3 in (0, 1, 2, 4)]
     else:
-        shards = [(k0, k4, k3) for k0 in range(NSLOT) for k4 in range(NSLOT) for k3 in range(NSLOT)]
+        shards = [(k0, k4, k3) for k0 in range(NSLOT) for k4 in range(NSLOT) for k3 in (0, 1, 2, 4)]
     for k0, k4, k3 in shards:
         out.append(CH(name=f"c12_bracket_{k0}_{k4}_{k3}", base="c12_bracket", func=f"{H}:c12_bracket",
-                      params=[("k1", "int"), ("k2", "int"), ("n1", "int")] + ([] if q else [("n2", "int")]),
-                      pre=["0 <= k1 < 4" if q else f"0 <= k1 < {NSLOT}", f"0 <= k2 < {NSLOT}", f"0 <= n1 <= {nmax}"] + ([] if q else [f"0 <= n2 <= {nmax}"]),
-                      fixed=dict({"k0": k0, "k4": k4, "k3": k3}, **({"n2": 2} if q else {})), timeout=600 if q else 1500, twin=True,
+                      params=[("k1", "int"), ("k2", "int"), ("n1", "int")],
+                      pre=["0 <= k1 < 4" if q else "0 <= k1 < 5", f"0 <= k2 < {NSLOT}", "0 <= n1 <= 2"],
+                      fixed={"k0": k0, "k4": k4, "k3": k3, "n2": 2}, timeout=600 if q else 1500, twin=True,
                       functions=["DiscoverSubcircuits.visit_GateStatement", "DiscoverSubcircuits.visit_BlockStatement", "DiscoverSubcircuits.visit_Circuit",
                                  "DiscoverSubcircuits.visit_LoopStatement", "TraceSerializer", "expand_subcircuits", "expand_macros"],
                       note="accepted <=> reference automaton accepts; number of subcircuits equal; contents of each subcircuit equal; rejection is a JaqalError"))
